@@ -250,7 +250,7 @@ def splitLoop (s : KmpS) (txt : Bytes) : Nat → Int → Kmp.State → Int → A
 def split (pat text : Bytes) (start : Option Int) (limit : Option Int) : R (List Bytes) := do
   let limit := limit.getD (-1)
   let s ← findsetup pat text start
-  let (array, lastindex) ← splitLoop s text (text.length + 2) 0 s.st limit #[]
+  let (array, lastindex) ← splitLoop s text (text.length + 1) 0 s.st limit #[]
   let sl ← stringv text lastindex ((text.length : Int) - lastindex)
   pure (array.push sl).toList
 
